@@ -5,6 +5,7 @@ from hypothesis import strategies as st
 from vlib import boolsem, gen_bexp
 
 ID = "C04"
+CASE_TIMEOUT = 30  # seconds per case; a timed-out case is counted as skipped (symbolic blow-up on long feedback runs), never as a verdict
 RULE = (
     "Hypothesis generates SSA definition lists (1..6 inputs, 0..3 intermediates, 1..3 return symbols, depth<=3, n-ary And/Or/Xor, "
     "Not, ITE, Implies, constants, shared sub-terms, shapes that almost match each rewrite rule), built evaluated or unevaluated, "
